@@ -77,10 +77,34 @@ func c12Restart(s *sc) {
 	}
 	edited := false
 	if !atOnce || s.r.Bool() {
-		id, _, err := in.PostSilence(SilenceIn{ID: sEdit, Matchers: []Matcher{eq("x", "2"), {Name: "y", Value: "a.*", IsRegex: true, IsEqual: true}}, StartsAt: now, EndsAt: newEnd, CreatedBy: "somebody else", Comment: "edited in place"})
+		// An edit keeps the id only while the silence is active (or pending) and its start is re-submitted unchanged
+		// (compared at whole seconds; the server replaced the start given at creation by its own clock). So: read the
+		// silence back, re-submit exactly the start it reports, and judge the id only when it is seen active right before
+		// and right after the edit.
+		cur := func() (SilenceOut, bool) {
+			sils, err := in.GetSilences()
+			s.must(err, "GET silences")
+			for _, x := range sils {
+				if x.ID == sEdit {
+					return x, true
+				}
+			}
+			return SilenceOut{}, false
+		}
+		b4, ok := cur()
+		if !ok || b4.Status.State != "active" {
+			s.inconclusive("the silence to be edited is not active right before the edit (%s)", b4.Status.State)
+			return
+		}
+		id, _, err := in.PostSilence(SilenceIn{ID: sEdit, Matchers: b4.Matchers, StartsAt: b4.StartsAt, EndsAt: newEnd, CreatedBy: "somebody else", Comment: "edited in place"})
 		s.must(err, "edit silence")
+		af, ok := cur()
 		if id != sEdit {
-			s.violate("in-place-edit-changed-the-id", "editing only comment, creator and end of the active silence %s gave it the new id %s", sEdit, id)
+			if !ok || af.Status.State != "active" || !af.StartsAt.Equal(b4.StartsAt) {
+				s.inconclusive("the silence was not active with an unchanged start around the edit; a new id is legitimate then")
+				return
+			}
+			s.violate("in-place-edit-changed-the-id", "editing only comment, creator and end of silence %s (active before and after, start re-submitted as reported: %s) gave it the new id %s", sEdit, b4.StartsAt.UTC().Format(time.RFC3339Nano), id)
 			return
 		}
 		edited = true
